@@ -47,9 +47,9 @@ Qed.
 Definition Pof (pmff : BinomialDist_rec -> Q -> Q) (n : Z) (q : Q) : Z -> Q :=
   fun k => pmff (mk_BinomialDist n q) (inject_Z k).
 
-(* the loop state of the generated code: (res.Ambiguous, accum, l, lp, r, rp) *)
-Definition of_st (P : Z -> Q) (s : st) : bool * Q * Z * Q * Z * Q :=
-  (s_amb s, s_acc s, s_l s, lp P s, s_r s, rp P s).
+(* the loop state of the generated code, in the order of the declarations: (res.Ambiguous, l, r, accum, lp, rp) *)
+Definition of_st (P : Z -> Q) (s : st) : bool * Z * Z * Q * Q * Q :=
+  (s_amb s, s_l s, s_r s, s_acc s, lp P s, rp P s).
 
 (* l and r stay far from the int64 bounds for f more iterations *)
 Definition rng (f : nat) (s : st) : Prop :=
@@ -57,8 +57,8 @@ Definition rng (f : nat) (s : st) : Prop :=
 
 Section Greedy.
   Variables (P : Z -> Q) (c : Q).
-  Variable cond : bool * Q * Z * Q * Z * Q -> bool.
-  Variable body : bool * Q * Z * Q * Z * Q -> bool * Q * Z * Q * Z * Q.
+  Variable cond : bool * Z * Z * Q * Q * Q -> bool.
+  Variable body : bool * Z * Z * Q * Q * Q -> bool * Z * Z * Q * Q * Q.
   Hypothesis cond_ok : forall s, cond (of_st P s) = more P c s.
   Hypothesis body_ok : forall s, rng 1 s -> body (of_st P s) = of_st P (step P s).
 
